@@ -933,6 +933,10 @@ class ExcludeRegionState(object):  # pylint: disable=too-many-instance-attribute
             # Capture the last value for each argument encountered for the command
             # Retrieve & remove existing entry, or create new empty arg dict
             pendingArgs = self.pendingCommands.pop(gcode, {})
+            if (not isinstance(pendingArgs, dict)):
+                # The entry was recorded as a complete command while the Gcode was configured with
+                # another mode (settings changed in the meantime): start collecting arguments anew
+                pendingArgs = {}
             # Append the entry at the end
             self.pendingCommands[gcode] = pendingArgs
 
